@@ -3,6 +3,8 @@ package core
 import (
 	"fmt"
 
+	"github.com/jsightapi/jsight-schema-go-library/bytes"
+
 	"github.com/jsightapi/jsight-api-go-library/catalog"
 	"github.com/jsightapi/jsight-api-go-library/directive"
 	"github.com/jsightapi/jsight-api-go-library/jerr"
@@ -176,11 +178,25 @@ func (core *JApiCore) setCurrentDirective(keyword string, keywordCoords directiv
 		return core.japiError(fmt.Sprintf("unknown directive %q", keyword), keywordCoords.Begin())
 	}
 
+	if je := core.checkDirectiveIsAllowed(de, keywordCoords.Begin()); je != nil {
+		return je
+	}
+
 	d := directive.NewWithCallStack(de, keywordCoords, core.scannersStack.ToDirectiveIncludeTracer())
 	d.Keyword = keyword
 
 	core.currentDirective = d
 
+	return nil
+}
+
+// checkDirectiveIsAllowed reports the banned directive right where it is
+// written, whatever happens to it later (MACRO and PASTE are gone before the
+// catalog is built, INCLUDE is never a part of the directive tree).
+func (core *JApiCore) checkDirectiveIsAllowed(de directive.Enumeration, at bytes.Index) *jerr.JApiError {
+	if _, ok := core.bannedDirectives[de]; ok {
+		return core.japiError(fmt.Sprintf("%s (%s)", jerr.DirectiveNotAllowed, de.String()), at)
+	}
 	return nil
 }
 
